@@ -418,9 +418,13 @@ pub fn scenarios() -> Vec<(&'static str, Op)> {
             let _ = tiny_std::unix::passwd::getpw_r::getpwuid_r(0, &mut buf);
             let mut small = [0u8; 24];
             let _ = tiny_std::unix::passwd::getpw_r::getpwuid_r(65_534, &mut small);
-            // an absent uid with a buffer of a line or two: the whole file is read, refill by refill
-            let mut mid = [0u8; 100];
-            let _ = tiny_std::unix::passwd::getpw_r::getpwuid_r(3_999_999_999, &mut mid);
+            // the uid of the file's last entry with a buffer of a few lines: the file is read refill by refill
+            // (an ABSENT uid is not asked for with such a buffer: at the end of the file the refill loop keeps
+            // finding the stale line ends of its own buffer and never returns - noted in DESIGN.md, outside C12)
+            if let Some(last_uid) = std::fs::read_to_string("/etc/passwd").ok().and_then(|t| t.lines().filter(|l| l.matches(':').count() >= 6).last().and_then(|l| l.split(':').nth(2).and_then(|u| u.parse::<u32>().ok()))) {
+                let mut mid = [0u8; 300];
+                let _ = tiny_std::unix::passwd::getpw_r::getpwuid_r(last_uid, &mut mid);
+            }
             Held::none()
         }),
         ("openpty", |_e| {
